@@ -52,6 +52,31 @@ def apply_mutant(scratch, m):
         f.write(s)
 
 
+RESULTS = os.path.join(VERIF, "sensitivity_results.json")
+
+
+def record(line, m):
+    """Keeps the latest result per change in /verif/sensitivity_results.json (rendered into
+    DESIGN.md section 11 by tools/sens_report.py)."""
+    try:
+        with open(RESULTS) as f:
+            data = json.load(f)
+    except (OSError, ValueError):
+        data = {}
+    key = line["id"]
+    if "patch" in m:
+        # seeded/<id>/patch.diff -> <id>
+        key = os.path.basename(os.path.dirname(m["patch"])) or key
+        line = dict(line, id=key, kind="seeded")
+    else:
+        line = dict(line, kind="planted", fault=bool(m.get("fault")), file=m["file"])
+    data[key] = line
+    with open(RESULTS + ".tmp", "w") as f:
+        json.dump(data, f, indent=1, sort_keys=True)
+        f.write("\n")
+    os.replace(RESULTS + ".tmp", RESULTS)
+
+
 def main():
     args = sys.argv[1:]
     tier = "quick"
@@ -84,6 +109,7 @@ def main():
                     "expected": m.get("expect", "")}
             results.append(line)
             print(json.dumps(line), flush=True)
+            record(line, m)
             if rc not in (0, 1):
                 print(out[-3000:])
         finally:
